@@ -14,6 +14,7 @@ open Ncch
 open NcchFull
 open Romfs
 open Ncsd
+open Sd
 open Driver_base
 
 let opt f = function None -> "-" | Some x -> f x
@@ -212,6 +213,15 @@ let run_ncsd toks =
      | Err e -> "e:" ^ err_name e)
   | _ -> failwith "ncsd args"
 
+(* sdkey <movable.sed hex>  ->  key id0 | e:Err *)
+let run_sdkey toks =
+  match toks with
+  | [d] ->
+    (match sd_key_of (bytes_of_hex d) with
+     | Ok k -> hex_of_bytes k ^ " " ^ hex_of_bytes (id0_of sha256 k)
+     | Err e -> "e:" ^ err_name e)
+  | _ -> failwith "sdkey args"
+
 let dispatch (line : string) : string =
   match String.split_on_char ' ' (String.trim line) with
   | "engine" :: toks -> run_engine toks
@@ -224,6 +234,7 @@ let dispatch (line : string) : string =
   | "fulldec" :: toks -> run_fulldec toks
   | "romfs" :: toks -> run_romfs toks
   | "ncsd" :: toks -> run_ncsd toks
+  | "sdkey" :: toks -> run_sdkey toks
   | e :: _ -> failwith ("unknown entry " ^ e)
   | [] -> ""
 
